@@ -90,32 +90,40 @@ def forbidden_scan():
     return bad
 
 
-def build_runner():
-    """Extract the models (Extract.v) and build the OCaml runner. Returns path."""
-    ok, log = make(["Extract.vo"])
+def build_runner(area="tok"):
+    """Extract the models of one area (coq/Extract_<area>.v writes m_<area>.ml)
+    and build its OCaml runner = open M_<area> + ml/rcommon.ml + ml/run_<area>.ml
+    + ml/rmain.ml. Returns the path of the executable."""
+    ok, log = make(["Extract_%s.vo" % area])
     if not ok:
         raise RuntimeError("model extraction failed: " + first_error(log))
-    with lock("runner"):
-        srcs = []
-        for f in ("model.ml", "model.mli"):
-            srcs.append(open(os.path.join(COQ, f)).read())
-        drv = open(os.path.join(VERIF, "ml", "runner.ml")).read()
+    with lock("runner-" + area):
+        mod = "m_" + area
+        srcs = [open(os.path.join(COQ, mod + ext)).read() for ext in (".ml", ".mli")]
+        drv = "open M_%s\n" % area
+        for f in ("rcommon.ml", "run_%s.ml" % area, "rmain.ml"):
+            drv += open(os.path.join(VERIF, "ml", f)).read() + "\n"
         key = sha("\0".join(srcs) + drv)[:16]
-        out = os.path.join(ML, "runner-" + key)
+        out = os.path.join(ML, "runner-%s-%s" % (area, key))
         if os.path.exists(out):
             return out
-        work = os.path.join(ML, "w-" + key)
+        work = os.path.join(ML, "w-%s-%s" % (area, key))
         os.makedirs(work, exist_ok=True)
-        for f in ("model.ml", "model.mli"):
-            shutil.copy(os.path.join(COQ, f), work)
-        shutil.copy(os.path.join(VERIF, "ml", "runner.ml"), work)
-        rc, o, e = sh(["ocamlfind", "ocamlopt", "-O2", "-w", "-a", "-package", "str", "-linkpkg",
-                       "model.mli", "model.ml", "runner.ml", "-o", "runner"], cwd=work, timeout=900)
+        for ext in (".ml", ".mli"):
+            shutil.copy(os.path.join(COQ, mod + ext), work)
+        with open(os.path.join(work, "runner.ml"), "w") as f:
+            f.write(drv)
+        base = ["ocamlfind", "ocamlopt", "-w", "-a", "-package", "str", "-linkpkg",
+                mod + ".mli", mod + ".ml", "runner.ml", "-o", "runner"]
+        rc, o, e = sh(base[:2] + ["-O2"] + base[2:], cwd=work, timeout=900)
         if rc != 0:
-            rc, o, e = sh(["ocamlfind", "ocamlopt", "-w", "-a", "-package", "str", "-linkpkg",
-                           "model.mli", "model.ml", "runner.ml", "-o", "runner"], cwd=work, timeout=900)
+            rc, o, e = sh(base, cwd=work, timeout=900)
         if rc != 0:
             raise RuntimeError("runner build failed:\n" + e[-4000:])
         os.replace(os.path.join(work, "runner"), out)
         shutil.rmtree(work, ignore_errors=True)
         return out
+
+
+def areas():
+    return sorted(f[len("Extract_"):-2] for f in os.listdir(COQ) if f.startswith("Extract_") and f.endswith(".v"))
